@@ -172,7 +172,6 @@ func (c *connection) stop() {
 		clear(c.handles)
 		close(c.msgChan)
 		close(c.activeMsgChan)
-		close(c.activeMsgCompleteChan)
 		close(c.reissuePackChan)
 	})
 }
@@ -251,14 +250,13 @@ func (c *connection) onActiveEvent(activeMsg *ActiveMessage, record map[uint16]*
 		}
 		go func(overtimeMsg *Message) {
 			time.Sleep(duration)
-			select {
-			case <-c.stopChan:
-				return
-			default:
-			}
 			overtimeMsg.ExtensionFields.Err = errors.Join(ErrWriteDataOverTime,
 				fmt.Errorf("overtime is [%.2f]second", duration.Seconds()))
-			c.activeMsgCompleteChan <- overtimeMsg
+			// 连接可能在检查stopChan之后才结束 所以检查和发送放在同一个select里 activeMsgCompleteChan也不再关闭
+			select {
+			case <-c.stopChan:
+			case c.activeMsgCompleteChan <- overtimeMsg:
+			}
 		}(replyMsg)
 	}
 }
